@@ -58,7 +58,7 @@ pub fn run(ctx: &Ctx) {
     ctx.set_rule("whole projects from the documented feature set: 1-5 files, 0-4 structs (serde rename / rename_all over all 8 rules / skip, validator length/range/email/url/message), 0-2 unit enums, 1-6 commands (names incl. JS reserved words, raw identifiers, odd underscores; value / injected / channel parameters; types nested to depth 3 over Option/Vec/sets/maps/tuples/refs/Result), events (names over [A-Za-z0-9_-/:], literal / struct / typed-parameter / call payloads), type mappings, naming-case settings, both modes; every generated .ts file must be consumed completely by the TypeScript-subset parser. evaluation = one generation run; non-trivial = the project has a type of depth >= 2, a non-identifier rename, an event name with ':' or '/', a reserved-word name, a raw identifier, a mapping or a validator");
     ctx.set_exhaustive(false);
     ctx.assume("validity is relative to the harness's TypeScript-subset parser (stricter than nothing, never stricter than tsc on the fragment the templates emit)");
-    let cases = ctx.tier.pick(3000, 80000);
+    let cases = ctx.tier.pick(3000, 400000);
     ctx.search("c01.project", cases, 400, |tape, stats| {
         let mut avoided = 0;
         let p = random_project(tape, false, &mut avoided);
